@@ -165,9 +165,28 @@ def valid_size_rules(P, rep, rid):
                 n += 1
                 gs = guards_of(f, i)
                 val = f.expr(i.ops[0])
-                v_ = val.replace(' ', '')
-                raised = any(a.replace(' ', '') == '(split->valid_size<%s)' % v_ and p for a, p in gs)
-                lowered = any(a.replace(' ', '') == '(split->valid_size>%s)' % v_ and p for a, p in gs)
+                # raise / lower is read off the dominating comparison between split->valid_size and the stored value, whatever its
+                # spelling (operand order, casts, >= vs <): the two sides are identified by evaluating them under random leaf values
+                raised = lowered = False
+                for b_ in range(len(f.blocks)):
+                    t_ = f.term(b_)
+                    if t_.op != 'br' or len(t_.ops) != 3:
+                        continue
+                    ci = f.inst_of(t_.ops[0])
+                    if ci is None or ci.op != 'icmp' or ci.pred in ('eq', 'ne'):
+                        continue
+                    for edge_true, sb in ((True, t_.ops[2][1]), (False, t_.ops[1][1])):
+                        if not f.edge_dominates(t_, sb, i):
+                            continue
+                        sides = [f.expr(o).endswith('->valid_size') for o in ci.ops]
+                        if sides.count(True) != 1:
+                            continue
+                        other = ci.ops[1] if sides[0] else ci.ops[0]
+                        if not all(_numeric(f, other, k_) == _numeric(f, i.ops[0], k_) for k_ in (1, 2, 3)):
+                            continue
+                        pairs = [(a_, b2) for a_ in range(4) for b2 in range(4) if _icmp(ci.pred, *((a_, b2) if sides[0] else (b2, a_))) == edge_true]
+                        raised = raised or all(a_ < b2 for a_, b2 in pairs)
+                        lowered = lowered or all(a_ > b2 for a_, b2 in pairs)
                 opens = any(True for _ in f.calls({'open', 'open_noatime'}))
                 writes = any(True for _ in f.calls('pwrite'))
                 # the kind is read off the assignment itself (not off the function's name): an unguarded assignment is an initialisation
@@ -576,3 +595,20 @@ def create_accepts_damaged_size_rule(P, rep, rid):
     rep.check(bad is None, rid, 'parity_create does not refuse a parity file for its size', bad[0].loc() if bad else f.file,
               '%d failing branches examined, none decided by the file size alone' % nbr if bad is None else 'the failing branch at line %s depends only on %s: a parity file whose size is not a multiple of the block size (cut inside a block) makes fix stop with "Without an accessible Parity file", the lost parity is never rebuilt' % (bad[0].line, bad[1]),
               function='parity_create', construct='size-only refusal')
+
+
+def _numeric(f, o, salt, depth=0):
+    """value of an integer expression under a pseudo-random valuation of its leaves (loads, arguments, calls named by their
+    access path): two spellings of the same sum / product evaluate alike for every salt"""
+    import zlib
+    M = (1 << 61) - 1
+    o = f.strip(o)
+    c = f.const_of(o)
+    if c is not None:
+        return c % M
+    if o[0] == 'i' and depth < 12:
+        i = f.insts[o[1]]
+        if i.op in ('add', 'mul', 'sub', 'or', 'and', 'xor', 'shl'):
+            a, b = _numeric(f, i.ops[0], salt, depth + 1), _numeric(f, i.ops[1], salt, depth + 1)
+            return {'add': a + b, 'mul': a * b, 'sub': a - b, 'or': a | b, 'and': a & b, 'xor': a ^ b, 'shl': a << (b % 8)}[i.op] % M
+    return zlib.crc32(('%d:%s' % (salt, f.xexpr(o))).encode()) % 1000003 + 7
